@@ -130,6 +130,16 @@ def _check(case, r):
         for j, x in enumerate(seg):
             if x == 'connection_lost' and 'disconnected' not in seg[:j]:
                 out.append({'class': 'connection_lost_without_disconnected', 'detail': {'attempt': k, 'segment': seg}})
+    # ---- connected only once both tables are complete, fully_connected only once every parameter has a value
+    want_log, want_par = cfg.get('n_log', 3), cfg.get('n_param', 2)
+    for e in log:
+        if e[0] == 'cb' and e[1] in ('connected', 'fully_connected') and len(e) > 4:
+            c = e[4]
+            if 'error' in c or (c['n_log'], c['n_param']) != (want_log, want_par):
+                out.append({'class': 'connected_with_incomplete_tables', 'detail': {'callback': e[1], 'seen': c,
+                                                                                  'device': [want_log, want_par]}})
+            elif e[1] == 'fully_connected' and c['params_without_value']:
+                out.append({'class': 'fully_connected_before_all_values', 'detail': c})
     # ---- fan-out counts: one disconnected per close_link, one (disconnected, connection_lost) per link failure
     #      after the first packet, one connection_failed per failure before it
     closes = sum(1 for e in log if e[0] == 'ev' and e[1] == 'close')
